@@ -14,6 +14,7 @@ THEOREMS = ["Cxx.C04_well_nested", "Cxx.C04_parse_start_first", "Cxx.C04_fault_t
             "Cxx.C04_parser_well_nested", "Cxx.C04_parser_fault", "Cxx.fault_sim", "Cxx.nest_sim", "Cxx.interp_extends", "Cxx.C04_each_payload_stored_once", "Cxx.C04_block_end", "Cxx.C04_toplevel_block_end"]
 ANCHORS = ["parser.py:CxxParser._setup_state", "parser.py:CxxParser._pop_state", "parser.py:CxxParser.parse", "parser.py:CxxParser.__init__",
            "parser.py:CxxParser._on_block_end", "parser.py:CxxParser._parse_namespace", "parser.py:CxxParser._parse_extern", "parser.py:CxxParser._parse_class_decl",
+           "parser.py:CxxParser._consume_balanced_tokens", "parser.py:CxxParser._consume_value_until", "parser.py:CxxParser._discard_contents",
            "parserstate.py:", "visitor.py:", "simple.py:"]
 RULE = ("histories of generated programs, class programs, the test corpus and mutated inputs; for each history the monitor "
         "(nesting, identities, parents, kinds per signature) runs on the implementation's stream, and a callback is made to raise "
@@ -174,15 +175,25 @@ def run(ctx):
     for _ in range(ctx.budget(120, 6000)):
         texts.append(gen_prog.gen_program(rng, budget=6)[0])
         texts.append(gen_prog.gen_class_program(rng)[0])
+    ngenerated = len(texts)
     texts += pcommon.mutated_corpus(ctx, ctx.budget(200, 6000))
     mfails = []
     ffails = []
     foldfails = []
     fault_cases = []
     nfault = 0
-    for t in texts:
+    for ti, t in enumerate(texts):
         r = impl.impl_parse(t, "f.h", with_simple=True)
         evs = canon.renumber(r["events"])
+        # the corpus and the generated programs are complete sources (every block they open is closed in the text):
+        # when parse() returns normally every started block must have been ended
+        if ti < ngenerated and r["result"]["k"] != "ok" and "INTERNAL ERROR" in str(r["result"].get("msg")):
+            mfails.append({"input": t, "diff": "complete source: the parser's own block stack became unbalanced (%s)" % str(r["result"].get("msg"))[:120]})
+        if ti < ngenerated and r["result"]["k"] == "ok":
+            opened = sum(1 for e in evs if e["cb"].endswith("_start") and e["cb"] != "on_parse_start")
+            ended = sum(1 for e in evs if e["cb"].endswith("_end"))
+            if opened != ended:
+                mfails.append({"input": t, "diff": "complete source: %d blocks started, %d ended when parse() returned" % (opened, ended)})
         ctx.count(t, nontrivial=any(e["cb"].endswith("_start") and e["cb"] != "on_parse_start" for e in evs))
         bad = monitor(evs, r["result"]["k"] == "ok")
         if bad:
